@@ -87,6 +87,7 @@ class Real:
         else:
             root = T.named("root")
         self.classes = [root]
+        self.named_root = case["root"] != "using"
         self.insts = []
         self.held = {}          # view label -> the view OBJECT fetched once and kept by the caller
 
@@ -113,6 +114,28 @@ class Real:
 
     def snapshot(self):
         return [[v, _canon_items(self.view(v).items())] for v in self.views()]
+
+    def materialised(self):
+        """WHICH classes of the case have a frame in the `map` of the Properties object they resolve to.
+        This is internal state of the library, read ONLY for the comparison of the materialisation order with the
+        mechanism model (lean/Flatland/C17Frames.lean); the oracle never looks at it.  Nothing here goes through
+        `Properties.__get__`, `_frames` or `_base_frame`, so the observation itself materialises nothing:
+        the descriptor is found in the class `__dict__`s along the MRO and `cls in descriptor.map` is a plain
+        WeakKeyDictionary membership test.  With root="named" class 0 stands for `Element` (the owner) in the
+        models but is an ordinary subclass in the code: it is left out."""
+        from flatland.schema.properties import Properties
+        out = []
+        for i, c in enumerate(self.classes):
+            if i == 0 and self.named_root:
+                continue
+            desc = None
+            for k in c.__mro__:
+                desc = k.__dict__.get("properties")
+                if desc is not None:
+                    break
+            if isinstance(desc, Properties) and c in desc.map:
+                out.append(i)
+        return out
 
     def do(self, cmd):
         """returns ("ok", raw result) or ("err", exception class name)"""
@@ -1002,25 +1025,28 @@ class C17(Property):
             # hides what happens when a frame is first created by a WRITE (seeded C17-base-frame-alias-initial)
             real = Real(case)
             results = []
+            mats = []
             for cmd in case["cmds"]:
                 res = real.do(cmd)
                 results.append(_canon_result(res))
+                mats.append(real.materialised())
                 if cmd["t"] != "op" and res[0] == "err":
-                    return {"_lazy": True, "results": results, "final": None}
-            return {"_lazy": True, "results": results, "final": real.snapshot()}
+                    return {"_lazy": True, "results": results, "mats": mats, "final": None}
+            return {"_lazy": True, "results": results, "mats": mats, "final": real.snapshot()}
         real = Real(case)
         snap = real.snapshot()
         start = snap
         steps = []
         for cmd in case["cmds"]:
             res = real.do(cmd)
+            mat = real.materialised()        # after the command, BEFORE the observer reads every view
             if cmd["t"] != "op" and res[0] == "err":
-                steps.append({"r": _canon_result(res), "d": []})
+                steps.append({"r": _canon_result(res), "d": [], "m": mat})
                 break                    # the store the later commands refer to was not built
             new = real.snapshot()
             old = {tuple(v): items for v, items in snap}
             delta = [[v, items] for v, items in new if tuple(v) not in old or old[tuple(v)] != items]
-            steps.append({"r": _canon_result(res), "d": delta})
+            steps.append({"r": _canon_result(res), "d": delta, "m": mat})
             snap = new
         return {"start": start, "steps": steps}
 
@@ -1035,6 +1061,12 @@ class C17(Property):
         results = [s_["r"] for s_ in steps]
         if canon(results) != canon(impl_obs["results"]):
             return "lazy results: impl=%s model=%s" % (canon(impl_obs["results"])[:300], canon(results)[:300])
+        # materialisation order: after every command, the classes that have a frame in `Properties.map`
+        mats = [s_.get("m") for s_ in steps][:len(impl_obs["mats"])]
+        if canon(mats) != canon(impl_obs["mats"]):
+            at = [i for i, (a, b) in enumerate(zip(impl_obs["mats"], mats)) if a != b]
+            return "lazy materialised frames differ at steps %s: impl=%s model=%s" % (
+                at[:5], canon(impl_obs["mats"])[:300], canon(mats)[:300])
         if impl_obs["final"] is not None:
             cur = {}
             order = []
@@ -1085,6 +1117,19 @@ class C17(Property):
         ncls = 1 + sum(1 for c in cmds if c["t"] in CLASS_CMDS)
         ninst = sum(1 for c in cmds if c["t"] in INST_CMDS)
         t += ["classes=%d" % ncls, "instances=%d" % ninst]
+        # materialisation of class frames as observed on the real objects (compared with the mechanism model)
+        mats = obs.get("mats") if obs.get("_lazy") else [s.get("m", []) for s in obs.get("steps", [])]
+        prev = []
+        for cmd, m in zip(cmds, mats or []):
+            new = [x for x in m if x not in prev]
+            if new and cmd["t"] == "op":
+                kind = "write" if cmd["op"] in WRITE_OPS else "read"
+                for x in new:
+                    t.append("frame-materialised-by=%s%s" % (kind, "" if cmd["view"] == ["c", x] else "-through-other-view"))
+            if cmd["t"] == "op" and cmd["op"] in READ_OPS and cmd["op"] != "popitem" and not new \
+                    and len(m) < ncls:
+                t.append("read-materialised-nothing")
+            prev = m
         for c in cmds:
             if c["t"] == "op":
                 t.append("op=%s@%s" % (c["op"], c["view"][0]))
